@@ -151,6 +151,24 @@ where
     }
     h
 }
+/// `yield_now().await`: pending once (the harness scheduler decides who runs next)
+pub struct YieldNow {
+    done: bool,
+}
+pub fn yield_now() -> YieldNow {
+    YieldNow { done: false }
+}
+impl Future for YieldNow {
+    type Output = ();
+    fn poll(mut self: Pin<&mut Self>, _cx: &mut Context<'_>) -> Poll<()> {
+        if self.done {
+            Poll::Ready(())
+        } else {
+            self.done = true;
+            Poll::Pending
+        }
+    }
+}
 pub fn spawn_blocking<F, R>(f: F) -> JoinHandle<R>
 where
     F: FnOnce() -> R + Send + 'static,
